@@ -105,6 +105,15 @@ def f2_cells():
         add(t, "1__2_", 12)
         add(t, "0x7F", 0x7F)
         add(t, "0x0a", 10)
+        add(t, "0xfF", 0xFF)
+        if INTS[t][0] >= 32:
+            add(t, "0x7fffffff", 0x7fffffff)
+        if INTS[t][0] == 64 or t == "u32":
+            add(t, "0x80000000", 0x80000000)
+            add(t, "0xFFFFFFFF", 0xFFFFFFFF)
+        if INTS[t][0] == 64:
+            add(t, "0x100000000", 0x100000000)
+            add(t, "0x7FFFFFFFFFFFFFFF", 0x7FFFFFFFFFFFFFFF)
         add(t, "7", 7, annotate_let=True)
         if INTS[t][1]:
             add(t, "-1", -1)
@@ -115,6 +124,10 @@ def f2_cells():
         add(t, "10.", 10.0)
         add(t, "10e2", 1000.0)
         add(t, "5E-1", 0.5)
+        add(t, "1E2", 100.0)
+        add(t, "2.5E3", 2500.0)
+        add(t, "1e0", 1.0)
+        add(t, "2E+1", 20.0)
         add(t, "1_234.5", 1234.5)
         add(t, f"2.5{t}", 2.5)
         add(t, "1.5e+1", 15.0)
@@ -583,6 +596,15 @@ def f9_cells():
             if INTS[t][1]:
                 guard = Bin("&&", guard, Bin("!=", b, Lit(t, -1), "bool"), "bool")
             out.append(P(f"f9_{t}_{opname(op)}_guarded", "F9", Program([fn_main([("a", t), ("b", t)], t, [], If(guard, Block([], Bin(op, a, b, t), t), Block([], zero, t), t))]), {"trap", "value"}))
+            # guards written with every comparison operator (a mis-lowered comparison lets trapping operands through)
+            if INTS[t][1]:
+                guards = {"gt": Bin(">", b, zero, "bool"), "ge": Bin(">=", b, Lit(t, 1), "bool"),
+                          "lt": Bin("&&", Bin("<", zero, b, "bool"), Bin("<", Lit(t, -1), b, "bool"), "bool"),
+                          "le": Bin("<=", Lit(t, 1), b, "bool")}
+            else:
+                guards = {"gt": Bin(">", b, zero, "bool"), "ge": Bin(">=", b, Lit(t, 1), "bool"), "lt": Bin("<", zero, b, "bool"), "le": Bin("<=", Lit(t, 1), b, "bool")}
+            for gname, g in guards.items():
+                out.append(P(f"f9_{t}_{opname(op)}_guard_{gname}", "F9", Program([fn_main([("a", t), ("b", t)], t, [], If(g, Block([], Bin(op, a, b, t), t), Block([], zero, t), t))]), {"trap", "value"}))
             out.append(P(f"f9_{t}_{opname(op)}_const_divisor", "F9", Program([fn_main([("a", t), ("b", t)], t, [], Bin(op, a, Lit(t, 3), t))]), {"trap", "value"}))
     return out
 
